@@ -59,6 +59,9 @@ pub enum Action {
     Propose { n: NodeId, id: u64, size: u32 },
     /// transition: 0 Auto, 1 Implicit, 2 Explicit. v1: use the legacy ConfChange (first change only).
     ProposeConf { n: NodeId, id: u64, v1: bool, transition: u8, changes: Vec<Change> },
+    /// A multi-entry MsgPropose stepped into node n (an application that batches proposals):
+    /// `before` normal entries, optionally one membership change, `after` normal entries.
+    ProposeBatch { n: NodeId, id: u64, before: u8, after: u8, conf: Option<(bool, u8, Vec<Change>)> },
     ReadIndex { n: NodeId, id: u64 },
     Transfer { n: NodeId, target: NodeId },
     Campaign { n: NodeId },
